@@ -11,6 +11,7 @@
 
 #include <tao/pegtl.hpp>
 #include <tao/pegtl/contrib/remove_first_state.hpp>
+#include <tao/pegtl/contrib/uint8.hpp>
 #include <tao/pegtl/must_if.hpp>
 #include <tao/pegtl/contrib/check_bytes.hpp>
 #include <tao/pegtl/contrib/if_then.hpp>
@@ -66,7 +67,8 @@ namespace T
       G_FILL = 65536,   // filler leaves for ill-formed grammar families (C11)
       G_META = 131072,  // action<> / control<> wrappers, raw_string with content rule
       G_PRED = 262144,  // contrib predicates (also part of G_CONTRIB)
-      G_RAW = 524288    // raw_string alone (also part of G_CONTRIB)
+      G_RAW = 524288,   // raw_string alone (also part of G_CONTRIB)
+      G_POS2 = 1048576  // one rule per way a class rule decides between bump() and bump_in_this_line() (C06)
    };
 #ifndef VERIF_GROUPS
 #define VERIF_GROUPS ( T::G_CORE | T::G_HOLE )
@@ -365,6 +367,8 @@ namespace T
    template< typename A > using w_disable = p::disable< A >;
    struct LogState;
    template< typename A > using w_state = p::state< LogState, A >;
+   struct LogStateD;
+   template< typename A > using w_state_d = p::state< LogStateD, A >;  // a state that is only default constructible
    // action rules (apply / apply0 / if_apply): the action is a plain struct, its decision an explorer choice
    struct rule_action;
    struct rule_action0;
@@ -454,6 +458,33 @@ namespace T
    A0( SEVEN, G_POS, ( p::seven ) ) \
    A0( NOT_ONE_LF, G_POS, ( p::not_one< '\n' > ) ) \
    A0( UTF8_ANY, G_POS, ( p::utf8::any ) ) \
+   A0( ONE_A_LF_CR, G_POS2, ( p::one< 'a', '\n', '\r' > ) ) \
+   A0( ONE_LF_CR_A, G_POS2, ( p::one< '\n', '\r', 'a' > ) ) \
+   A0( RANGE_TAB_CR, G_POS2, ( p::range< '\t', '\r' > ) ) \
+   A0( NOT_RANGE_AB, G_POS2, ( p::not_range< 'a', 'b' > ) ) \
+   A0( RANGES_EOL_LAST, G_POS2, ( p::ranges< 'a', 'b', '\t', '\r' > ) ) \
+   A0( RANGES_EOL_FIRST, G_POS2, ( p::ranges< '\t', '\r', 'a', 'b' > ) ) \
+   A0( RANGES_ODD_LF, G_POS2, ( p::ranges< 'a', 'b', '\n' > ) ) \
+   A0( RANGES_ODD_CR, G_POS2, ( p::ranges< 'a', 'b', '\r' > ) ) \
+   A0( STRING_A_LF, G_POS2, ( p::string< 'a', '\n' > ) ) \
+   A0( STRING_CR_A, G_POS2, ( p::string< '\r', 'a' > ) ) \
+   A0( ISTRING_A_LF, G_POS2, ( p::istring< 'a', '\n' > ) ) \
+   A0( ISTRING_CR_A, G_POS2, ( p::istring< '\r', 'a' > ) ) \
+   A0( U8_ONE_A_LF_CR, G_POS2, ( p::utf8::one< 'a', '\n', '\r' > ) ) \
+   A0( U8_NOT_ONE_A, G_POS2, ( p::utf8::not_one< 'a' > ) ) \
+   A0( U8_RANGE_TAB_CR, G_POS2, ( p::utf8::range< '\t', '\r' > ) ) \
+   A0( U8_NOT_RANGE_AB, G_POS2, ( p::utf8::not_range< 'a', 'b' > ) ) \
+   A0( U8_RANGES_EOL_LAST, G_POS2, ( p::utf8::ranges< 'a', 'b', '\t', '\r' > ) ) \
+   A0( UINT8_ANY, G_POS2, ( p::uint8::any ) ) \
+   A0( UINT8_ONE_LF_CR, G_POS2, ( p::uint8::one< 10, 13 > ) ) \
+   A0( UINT8_MASK_ONE, G_POS2, ( p::uint8::mask_one< 0xF0, 0x00 > ) ) \
+   A0( UINT8_MASK_NOT_ONE, G_POS2, ( p::uint8::mask_not_one< 0xF0, 0x60 > ) ) \
+   A0( UINT8_MASK_RANGE, G_POS2, ( p::uint8::mask_range< 0x0F, 0x09, 0x0D > ) ) \
+   A0( UINT8_MASK_NOT_RANGE, G_POS2, ( p::uint8::mask_not_range< 0xF0, 0x60, 0x70 > ) ) \
+   A0( UINT8_MASK_RANGES, G_POS2, ( p::uint8::mask_ranges< 0x7F, 0x61, 0x62, 0x09, 0x0D > ) ) \
+   A0( UINT8_MASK_RANGE2, G_POS2, ( p::uint8::mask_range< 0xF0, 0x00, 0x05 > ) ) \
+   A0( UINT8_MASK_RANGES2, G_POS2, ( p::uint8::mask_ranges< 0xF0, 0x00, 0x05, 0x60 > ) ) \
+   A0( UINT8_MASK_NOT_ONE2, G_POS2, ( p::uint8::mask_not_one< 0xF0, 0x0A, 0x0D > ) ) \
    A0( KEYWORD_AB, G_ATOM3, ( p::keyword< 'a', 'b' > ) ) \
    A0( IDENTIFIER, G_ATOM3, ( p::identifier ) ) \
    A0( SHEBANG, G_ATOM3, ( p::shebang ) ) \
@@ -595,7 +626,8 @@ namespace T
    U1( CONTROL_SW, G_STATE, w_control_sw ) \
    A0( APPLY, G_ACT, ( p::apply< rule_action > ) ) \
    A0( APPLY0, G_ACT, ( p::apply0< rule_action0 > ) ) \
-   U1( STATE, G_STATE, w_state )
+   U1( STATE, G_STATE, w_state ) \
+   U1( STATE_D, G_STATE, w_state_d )
 
    enum Op : uint8_t
    {
@@ -1557,6 +1589,9 @@ namespace T
          case 13: return I == 0 ? Attach{ AK_APPLY, 0 } : I == 1 ? Attach{ AK_CHANGE_STATES, 0 } : I == 2 ? Attach{ AK_CHANGE_ACTION_AND_STATE, 0 } : Attach{ AK_ENABLE_ACTION, 0 };
          case 14: return I == 0 ? Attach{ AK_APPLY, 0 } : I == 1 ? Attach{ AK_CHANGE_CONTROL, 0 } : I == 2 ? Attach{ AK_CHANGE_ACTION_AND_STATES, 0 } : Attach{ AK_CHANGE_ACTION_AND_STATE, 0 };
          case 16: return I == 0 ? Attach{ AK_APPLY, 0 } : I == 1 ? Attach{ AK_CHANGE_STATE_D, 0 } : I == 2 ? Attach{ AK_CHANGE_ACTION_AND_STATE_D, 0 } : Attach{ AK_APPLY, 0 };
+         case 17: return I == 0 ? Attach{ AK_APPLY, 0 } : I == 1 ? Attach{ AK_CHANGE_STATES, 0 } : I == 2 ? Attach{ AK_CHANGE_ACTION, 0 } : Attach{ AK_CHANGE_ACTION_AND_STATES, 0 };
+         case 18: return I == 0 ? Attach{ AK_APPLY, 0 } : I == 1 ? Attach{ AK_APPLY, 0 } : I == 2 ? Attach{ AK_DISABLE_ACTION, 0 } : Attach{ AK_CHANGE_ACTION_AND_STATE_D, 0 };
+         case 19: return I == 0 ? Attach{ AK_APPLY, 0 } : I == 1 ? Attach{ AK_ENABLE_ACTION, 0 } : I == 2 ? Attach{ AK_CHANGE_STATE_D, 0 } : Attach{ AK_CHANGE_ACTION, 0 };
          case FAM_ALT: return I == 3 ? Attach{ AK_CHANGE_STATE, 0 } : Attach{ AK_APPLY, 0 };  // a switch inside the family switched to
       }
       return Attach{ AK_NONE, 0 };
@@ -1714,6 +1749,9 @@ namespace T
    template< typename Rule > struct fam13 : sw_act< 13, Rule > {};
    template< typename Rule > struct fam14 : sw_act< 14, Rule > {};
    template< typename Rule > struct fam16 : sw_act< 16, Rule > {};
+   template< typename Rule > struct fam17 : sw_act< 17, Rule > {};
+   template< typename Rule > struct fam18 : sw_act< 18, Rule > {};
+   template< typename Rule > struct fam19 : sw_act< 19, Rule > {};
    template< typename Rule > struct fam_alt : sw_act< FAM_ALT, Rule > {};
    // clang-format on
 
